@@ -167,6 +167,8 @@ def events(scn, trace, nm: Names) -> list[str]:
             out.append(f"ERemove {nm.tid(e['t']['id'])} {q.cbool(e['reason'] == 'completed')}")
         elif k == "limit":
             out.append(f"ELimit {q.copt(e['limit'], q.cz)}")
+        elif k == "abs":
+            out.append(f"EAbs {nm.key(e['key'])}")
         elif k == "merge":
             out.append(f"EMerge {nm.tid(e['id'])} {q.clist(q.cnat(f) for f in e['flows'])}")
         elif k in ("tick_end", "started"):
